@@ -229,3 +229,57 @@ func Generate(r *rng.R, multi bool, module string) *Program {
 	}
 	return p
 }
+
+// GeneratePlainMulti draws a module with two main packages sharing a NON-generic library: cmd/a reaches an
+// otherwise dead, unexported function of the library through go:linkname, cmd/b does not. Building one after the
+// other in a session must not change either output (no generic instances are involved, so known finding F3
+// cannot be the cause of a difference here).
+func GeneratePlainMulti(r *rng.R, module string) *Program {
+	p := &Program{Files: map[string]string{"go.mod": "module " + module + "\n\ngo 1.20\n"}, Features: map[string]int{"plain-multi-main": 1}}
+	var lib strings.Builder
+	lib.WriteString("package lib\n\nvar counter int\n\n")
+	n := 3 + r.Intn(4)
+	for i := 0; i < n; i++ {
+		fmt.Fprintf(&lib, "func F%d(x int) int {\n\tcounter += %d\n\treturn x*%d + helper%d(x)\n}\n\nfunc helper%d(x int) int { return x + %d }\n\n", i, i+1, 2+r.Intn(5), i, i, r.Intn(50))
+	}
+	lib.WriteString("// hidden is reachable only through a go:linkname directive of one of the commands.\nfunc hidden(x int) int { return deep(x) * 3 }\n\nfunc deep(x int) int {\n\ttype local struct{ a, b int }\n\tl := local{x, x + 1}\n\treturn l.a + l.b\n}\n")
+	p.Files["lib/lib.go"] = lib.String()
+	mk := func(dir string, link bool, calls []int) {
+		var b strings.Builder
+		b.WriteString("package main\n\nimport (\n")
+		if link {
+			b.WriteString("\t_ \"unsafe\"\n\n")
+		}
+		fmt.Fprintf(&b, "\t\"%s/lib\"\n)\n\n", module)
+		if link {
+			fmt.Fprintf(&b, "//go:linkname hiddenA %s/lib.hidden\nfunc hiddenA(x int) int\n\n", module)
+		}
+		b.WriteString("func main() {\n\tn := 0\n")
+		for _, c := range calls {
+			fmt.Fprintf(&b, "\tn += lib.F%d(%d)\n", c, r.Intn(9))
+		}
+		if link {
+			b.WriteString("\tn += hiddenA(4)\n")
+		}
+		b.WriteString("\tprintln(n)\n\tprintln(\"END\")\n}\n")
+		p.Files[dir+"main.go"] = b.String()
+		p.Mains = append(p.Mains, strings.TrimSuffix(dir, "/"))
+	}
+	var ca, cb []int
+	for i := 0; i < n; i++ {
+		if r.Bool() {
+			ca = append(ca, i)
+		} else {
+			cb = append(cb, i)
+		}
+	}
+	if len(ca) == 0 {
+		ca = []int{0}
+	}
+	if len(cb) == 0 {
+		cb = []int{n - 1}
+	}
+	mk("cmd/a/", true, ca)
+	mk("cmd/b/", false, cb)
+	return p
+}
